@@ -258,6 +258,14 @@ def stepG (K : SkOps α) (mk : Nat → Bool → List (Nat × Nat) → Except GEr
           | .ok l => (st, "ok " ++ showCanon l false)
       | _, _ => bad
     | _, _ => bad
+  | "xsa" :: bo :: tnum :: tden :: q :: ds =>
+    -- impl-only observation (`search_databases_with_abund_query`): the model only checks that the op is well formed
+    match bool? bo, nats? [tnum, tden, q], nats? ds with
+    | some _, some [_, tden, q], some ds =>
+      match getSig st q, ds.mapM (getDb st) with
+      | some _, some _ => if tden = 0 then bad else (st, "x")
+      | _, _ => bad
+    | _, _, _ => bad
   | "xpfc" :: q :: thr :: ds =>
     -- impl-only observation (`search.prefetch_database`, what `sourmash prefetch` prints: the rows of
     -- `Index.prefetch` that pass `PrefetchResult.pass_threshold`): the model only checks that the op is well formed
